@@ -42,6 +42,31 @@ def fastq(recs):
     return "".join("@%s\n%s\n+\n%s\n" % r for r in recs).encode()
 
 
+def fasta(recs):
+    return "".join(">%s\n%s\n" % (r[0], r[1]) for r in recs).encode()
+
+
+def strict_parse_fasta(data):
+    """single-line FASTA records: > header line, one sequence line"""
+    if data == b"":
+        return []
+    try:
+        text = data.decode("ascii")
+    except UnicodeDecodeError:
+        return None
+    if text.endswith("\n"):
+        text = text[:-1]
+    lines = text.split("\n")
+    if len(lines) % 2:
+        return None
+    recs = []
+    for i in range(0, len(lines), 2):
+        if not lines[i].startswith(">") or len(lines[i]) < 2 or any(c not in "ACGTNacgtn" for c in lines[i + 1]):
+            return None
+        recs.append((lines[i][1:], lines[i + 1], None))
+    return recs
+
+
 def strict_parse(data):
     """-> list of (name, seq, qual) or None when the bytes are not a well-formed FASTQ file
     (four lines per record, @ and + markers, equal lengths, only the final newline optional)"""
@@ -151,11 +176,11 @@ def argv_single(d, inp):
             "--info-file", os.path.join(d, "info.tsv"), os.path.join(d, inp)]
 
 
-def argv_paired(d, interleaved):
-    a = ["-a", ADAPTER, "-A", ADAPTER, "-m", "25", "-o", os.path.join(d, "out.1.fastq"), "-p", os.path.join(d, "out.2.fastq")]
+def argv_paired(d, interleaved, ext="fastq"):
+    a = ["-a", ADAPTER, "-A", ADAPTER, "-m", "25", "-o", os.path.join(d, "out.1." + ext), "-p", os.path.join(d, "out.2." + ext)]
     if interleaved:
-        return a + ["--interleaved", os.path.join(d, "in.inter.fastq")]
-    return a + [os.path.join(d, "in.1.fastq"), os.path.join(d, "in.2.fastq")]
+        return a + ["--interleaved", os.path.join(d, "in.inter." + ext)]
+    return a + [os.path.join(d, "in.1." + ext), os.path.join(d, "in.2." + ext)]
 
 
 def run_one(job):
@@ -172,11 +197,11 @@ def run_one(job):
     return res
 
 
-def boundary_prefix(out, ref):
+def boundary_prefix(out, ref, per=4):
     """out is a prefix of ref that ends at a record boundary"""
     if not ref.startswith(out):
         return False
-    return out == b"" or (out.endswith(b"\n") and out.count(b"\n") % 4 == 0)
+    return out == b"" or (out.endswith(b"\n") and out.count(b"\n") % per == 0)
 
 
 def judge(label, job, res, refs, wf_records, kind):
@@ -184,14 +209,14 @@ def judge(label, job, res, refs, wf_records, kind):
     probs = []
     if res["timed_out"]:
         return ["no termination within %d s" % TIMEOUT]
-    outs = {k: v for k, v in res["out"].items() if k.endswith(".fastq")}
+    outs = {k: v for k, v in res["out"].items() if k.endswith(".fastq") or k.endswith(".fasta")}
     if wf_records is None:
         if res["exit"] == 0:
             probs.append("exit status 0 on malformed input")
         elif not res["stderr"].strip():
             probs.append("no error message on stderr (exit %r)" % res["exit"])
         for f, content in outs.items():
-            if not boundary_prefix(content, refs.get(f, b"")):
+            if not boundary_prefix(content, refs.get(f, b""), 2 if f.endswith(".fasta") else 4):
                 probs.append("output %s is not a record-boundary prefix of the output for the intact input" % f)
         if kind == "paired" and len(outs) == 2:
             a, b = outs.get("out.1.fastq", b""), outs.get("out.2.fastq", b"")
@@ -203,13 +228,14 @@ def judge(label, job, res, refs, wf_records, kind):
         else:
             present = set(wf_records)
             for f, ref in refs.items():
-                if not f.endswith(".fastq"):
+                if not (f.endswith(".fastq") or f.endswith(".fasta")):
                     continue
+                per = 2 if f.endswith(".fasta") else 4
                 lines = ref.split(b"\n")
                 exp = b""
-                for i in range(0, len(lines) - 1, 4):
+                for i in range(0, len(lines) - 1, per):
                     if rid(lines[i][1:].decode()) in present:
-                        exp += b"\n".join(lines[i:i + 4]) + b"\n"
+                        exp += b"\n".join(lines[i:i + per]) + b"\n"
                 if outs.get(f, b"") != exp:
                     probs.append("output %s lacks or adds records for a well-formed input of %d reads" % (f, len(present)))
     return probs
@@ -287,6 +313,35 @@ def check(ctx):
         for cores in [1, rng.choice(multi)]:
             add("paired", "interleaved-truncate@%d" % p, {"in.inter.fastq": di[:p]}, refs["interleaved"]["argv"], cores, rng.choice([600, 1000, None]), "interleaved", wf)
 
+    # ---- FASTA: interleaved (one file) and two files; a FASTA file cut inside a record is still a FASTA file, so the
+    # faults here are missing mates: every odd number of records, a cut inside the last header, R2 shorter than R1
+    f1 = make_records(rng, nrec * 2)
+    f2 = [(a[0], b[1], None) for a, b in zip(f1, make_records(rng, nrec * 2))]
+    finter = [r for pr in zip(f1, f2) for r in pr]
+    refs["interleaved-fasta"] = {"files": {"in.inter.fasta": fasta(finter)}, "argv": lambda d: argv_paired(d, True, "fasta")}
+    refs["paired-fasta"] = {"files": {"in.1.fasta": fasta(f1), "in.2.fasta": fasta(f2)}, "argv": lambda d: argv_paired(d, False, "fasta")}
+    cuts = sorted(set([len(finter) - 1, len(finter) - 3, 1, 3] + [rng.randrange(1, len(finter)) | 1 for _ in range(2 if ctx.quick else 10)]))
+    for k in cuts:
+        data = fasta(finter[:k])
+        for cores in [1] + ([rng.choice(multi)] if ctx.quick else multi[:2]):
+            for buf in ([rng.choice([300, 600])] if ctx.quick else [300, 600, 1000]):
+                add("paired", "interleaved-fasta:%d-records" % k, {"in.inter.fasta": data}, refs["interleaved-fasta"]["argv"], cores, buf if cores > 1 else None, "interleaved-fasta", None)
+    whole = fasta(finter)
+    lastrec = len(fasta(finter[-1:]))
+    for p in (len(whole) - lastrec + 2, len(whole) - lastrec + 1):
+        # cut inside the last header: the last record has a header but no sequence line
+        for cores in [1, rng.choice(multi)]:
+            add("paired", "interleaved-fasta:cut-in-last-header@%d" % p, {"in.inter.fasta": whole[:p]}, refs["interleaved-fasta"]["argv"], cores, 600 if cores > 1 else None,
+                "interleaved-fasta", None if strict_parse_fasta(whole[:p]) is None or len(strict_parse_fasta(whole[:p])) % 2 else [rid(r[0]) for r in strict_parse_fasta(whole[:p])[::2]])
+    for k in (len(f2) - 1, len(f2) // 2):
+        for cores in [1, rng.choice(multi)]:
+            add("paired", "paired-fasta:r2-has-%d-of-%d" % (k, len(f2)), {"in.1.fasta": fasta(f1), "in.2.fasta": fasta(f2[:k])}, refs["paired-fasta"]["argv"], cores,
+                rng.choice([300, 600]) if cores > 1 else None, "paired-fasta", None)
+    # well-formed controls: an even number of records
+    for k in (len(finter) - 2, 2):
+        for cores in [1, rng.choice(multi)]:
+            add("paired", "interleaved-fasta:%d-records" % k, {"in.inter.fasta": fasta(finter[:k])}, refs["interleaved-fasta"]["argv"], cores, 300 if cores > 1 else None,
+                "interleaved-fasta", [rid(r[0]) for r in finter[:k][::2]])
     # ---- corpus: earlier failures run first
     cp = os.path.join(core.VERIF, "corpus", "C12.json")
     if os.path.exists(cp):
@@ -296,7 +351,7 @@ def check(ctx):
                 nm = list(doc["files"])[0]
                 fn = (lambda nm: (lambda d: argv_single(d, nm)))(nm)
             else:
-                fn = (lambda il: (lambda d: argv_paired(d, il)))(doc["refkey"] == "interleaved")
+                fn = (lambda il, ex: (lambda d: argv_paired(d, il, ex)))(doc["refkey"].startswith("interleaved"), "fasta" if doc["refkey"].endswith("fasta") else "fastq")
             refs[key] = {"files": {k: bytes.fromhex(v) for k, v in doc["intact"].items()}, "argv": fn}
             jobs.insert(0, {"kind": doc["kind"], "label": "corpus:" + doc["fault"], "files": {k: bytes.fromhex(v) for k, v in doc["files"].items()},
                             "argv": fn, "cores": doc["cores"], "buf": doc["buffer_size"], "refkey": key, "wf": doc.get("well_formed_reads"), "sched": doc.get("sched")})
@@ -357,7 +412,7 @@ def replay(doc):
         name = list(files)[0]
         argv = lambda d: argv_single(d, name)
     else:
-        argv = lambda d: argv_paired(d, r["refkey"] == "interleaved")
+        argv = lambda d: argv_paired(d, r["refkey"].startswith("interleaved"), "fasta" if r["refkey"].endswith("fasta") else "fastq")
     ref = run_one({"dir": root, "files": intact, "argv": argv, "cores": 1, "buf": None})
     bad = []
     for attempt in range(4):
